@@ -19,6 +19,29 @@ type Profile struct {
 	NoStmts  bool // expressions/assignments only at statement level
 }
 
+// OddRunes: one or more representatives of every class of character a lexer may single out: format characters
+// (zero-width, directional, tags), space and line separators, combining marks, private use, non-characters, the last
+// code point, digits and letters of other scripts that fold to ASCII, full-width forms of the language's own
+// punctuation, and characters whose low byte equals an ASCII character that means something (blank, tab, CR, LF,
+// quotes, brackets, '#', '=', '.', a digit, a letter) - what a truncating conversion would take them for.
+var OddRunes = []rune{
+	0x061C, 0x200B, 0x200C, 0x200D, 0x200E, 0x200F, 0x202A, 0x202B, 0x202C, 0x202D, 0x202E, 0x2060, 0x2066, 0x2067, 0x2068, 0x2069, 0xFEFF, 0xE0001, 0xE0020,
+	0x00A0, 0x1680, 0x2003, 0x202F, 0x3000, 0x2028, 0x2029, 0x0085,
+	0x0301, 0x20DD, 0xE000, 0xF8FF, 0xFFFE, 0xFFFF, 0xFFFD, 0x10FFFF, 0x1FFFE, 0x10000, 0x3FFFF, 0x40000,
+	0x0661, 0xFF11, 0x212A, 0x017F, 0x0130, 0x0131, 0xFF41, 0xFF1D, 0xFF08, 0xFF3B, 0xFF5B, 0xFF02, 0xFF0E,
+	0x0120, 0x0109, 0x010D, 0x010A, 0x0122, 0x0127, 0x0123, 0x0128, 0x015B, 0x017B, 0x0130, 0x0141, 0x0161, 0x013D, 0x0160, 0x015C, 0x012E, 0x012C, 0x013A, 0x013B,
+	0x4E09, 0x4E0D, 0x2020, 0x1F609, 0x1F60D, 0x0420, 0x2009, 0x200A, 0x2022, 0x2027, 0x205F,
+}
+
+// OddIdents are identifiers that begin with, end with or consist of one odd rune.
+func OddIdents() []string {
+	var out []string
+	for _, r := range OddRunes {
+		out = append(out, string(r)+"a", "a"+string(r), string(r))
+	}
+	return out
+}
+
 func ProfileSyntax() *Profile {
 	return &Profile{
 		Idents: []string{"a", "b", "c", "x1", "_", "_v", "msg", "é", "a b", "1x", "if", "IN", "ü_1", "注", "\ufeffa", "\ufeff", "\u200bq", "\U0001F600",
@@ -118,7 +141,16 @@ func TripleQuote(s string, q byte) (string, bool) {
 	return qq + s + qq, true
 }
 
-func (p *Profile) ident(t *rapid.T) *Node { return NIdent(pick(t, "ident", p.Idents)) }
+var oddIdents = OddIdents()
+
+func (p *Profile) identName(t *rapid.T) string {
+	if rapid.IntRange(0, 9).Draw(t, "oddident") == 0 {
+		return pick(t, "oddname", oddIdents)
+	}
+	return pick(t, "ident", p.Idents)
+}
+
+func (p *Profile) ident(t *rapid.T) *Node { return NIdent(p.identName(t)) }
 
 // indexExpr builds ident[i][j]...
 func (p *Profile) indexExpr(t *rapid.T, d int) *Node {
@@ -361,7 +393,7 @@ func (p *Profile) Stmt(t *rapid.T, d int, inLoop bool) *Node {
 		case Bool, Nil, Int, Float: // literal iterables of these kinds are rejected by the parser (documented)
 			iter = p.ident(t)
 		}
-		return NForIn(pick(t, "ident", p.Idents), iter, p.block(t, d, true))
+		return NForIn(p.identName(t), iter, p.block(t, d, true))
 	case 9:
 		if inLoop {
 			return NBreak()
